@@ -233,7 +233,9 @@ func terminatesWithError(info *types.Info, list []ast.Stmt) bool {
 	return false
 }
 
-func c01ErrPropagation(r *Report, s *S1) {
+func c01ErrPropagation(r *Report, s *S1) { errPropagation(r, s, "C01/err-propagation") }
+
+func errPropagation(r *Report, s *S1, ruleName string) {
 	n := 0
 	for _, path := range []string{modPath, modPath + "/cmd/goag"} {
 		p := s.Pkgs[path]
@@ -289,12 +291,12 @@ func c01ErrPropagation(r *Report, s *S1) {
 					key := mk(call)
 					pos := s.pos(call.Pos())
 					if idx >= len(lhs) {
-						r.Violation("C01/err-propagation", key, pos, "error result not bound")
+						r.Violation(ruleName, key, pos, "error result not bound")
 						return
 					}
 					id, ok := lhs[idx].(*ast.Ident)
 					if !ok || id.Name == "_" {
-						r.Violation("C01/err-propagation", key, pos, "error result discarded with _ : a failure would be reported as success")
+						r.Violation(ruleName, key, pos, "error result discarded with _ : a failure would be reported as success")
 						return
 					}
 					eo := identObj(info, id)
@@ -303,12 +305,12 @@ func c01ErrPropagation(r *Report, s *S1) {
 						list, i = append([]ast.Stmt{nil}, after...), 0
 					}
 					if i+1 >= len(list) {
-						r.Violation("C01/err-propagation", key, pos, "error is not tested after the call")
+						r.Violation(ruleName, key, pos, "error is not tested after the call")
 						return
 					}
 					ifs, ok := list[i+1].(*ast.IfStmt)
 					if !ok || !condTestsErrG(info, ifs.Cond, eo) {
-						r.Violation("C01/err-propagation", key, pos, "statement after the call is not `if err != nil`")
+						r.Violation(ruleName, key, pos, "statement after the call is not `if err != nil`")
 						return
 					}
 					c := &c19{info: info}
@@ -319,7 +321,7 @@ func c01ErrPropagation(r *Report, s *S1) {
 					if !good && isMain {
 						good = terminatesWithError(info, ifs.Body.List)
 					}
-					r.Check(good, "C01/err-propagation", key, pos, "the non-nil branch does not end in a non-nil error return (or a fatal exit): the failure is swallowed and success is reported")
+					r.Check(good, ruleName, key, pos, "the non-nil branch does not end in a non-nil error return (or a fatal exit): the failure is swallowed and success is reported")
 				}
 				visit = func(list []ast.Stmt, after []ast.Stmt) {
 					for i, st := range list {
@@ -338,20 +340,20 @@ func c01ErrPropagation(r *Report, s *S1) {
 							if call, ok := st.X.(*ast.CallExpr); ok {
 								if idx, _ := returnsError(info, call); idx >= 0 {
 									n++
-									r.Violation("C01/err-propagation", mk(call), s.pos(call.Pos()), "error result of the call is dropped")
+									r.Violation(ruleName, mk(call), s.pos(call.Pos()), "error result of the call is dropped")
 								}
 							}
 						case *ast.DeferStmt:
 							if idx, _ := returnsError(info, st.Call); idx >= 0 {
 								n++
-								r.Violation("C01/err-propagation", mk(st.Call), s.pos(st.Call.Pos()), "error result of the deferred call is dropped")
+								r.Violation(ruleName, mk(st.Call), s.pos(st.Call.Pos()), "error result of the deferred call is dropped")
 							}
 						case *ast.ReturnStmt:
 							for _, e := range st.Results {
 								if call, ok := e.(*ast.CallExpr); ok {
 									if idx, _ := returnsError(info, call); idx >= 0 {
 										n++
-										r.OK("C01/err-propagation", mk(call), s.pos(call.Pos()), "returned directly")
+										r.OK(ruleName, mk(call), s.pos(call.Pos()), "returned directly")
 									}
 								}
 							}
@@ -365,7 +367,7 @@ func c01ErrPropagation(r *Report, s *S1) {
 											eo = identObj(info, as.Lhs[idx])
 										}
 										good := eo != nil && condTestsErrG(info, st.Cond, eo) && terminatesWithError(info, st.Body.List)
-										r.Check(good, "C01/err-propagation", mk(call), s.pos(call.Pos()), "error bound in if-init is not tested / does not lead to a non-nil return")
+										r.Check(good, ruleName, mk(call), s.pos(call.Pos()), "error bound in if-init is not tested / does not lead to a non-nil return")
 									}
 								}
 							}
